@@ -22,11 +22,12 @@ KINDS = ('budget', 'exception', 'cache', 'stack')
 
 
 def constructor_product(tier):
-    sizes = [(), (2, 2)] if tier == 'quick' else [(), (2,), (2, 2)]
+    sizes = [(2, 2)] if tier == 'quick' else [(), (2,), (2, 2)]
     levys = ['none', 'space-time', 'davie', 'foster']
     caches = [0, 1, 2, 45, None]
     out = []
-    for size, levy, cache, given in itertools.product(sizes, levys, caches, ['none', 'W', 'WH']):
+    for size, levy, cache, given in itertools.product(sizes, levys, caches,
+                                                      ['none', 'WH'] if tier == 'quick' else ['none', 'W', 'WH']):
         for dt, tol in itertools.product([None, 0.25, 1 / 16, 1e-3], [0., 0.1, 0.01]):
             out.append(bmm.cfg_make(size=size, levy=levy, cache_size=cache, dt=dt, tol=tol, given=given))
         for tol in (0.1, 0.01):
@@ -151,13 +152,15 @@ def run(tier, seed):
     for cfg in core:
         for N in Ns:
             D = 2 if (tier == 'thorough' or N == 8) else 1
-            units += ex.dev_units(cfg, entropy, N, D, nchunks=8 if D == 2 else 2, kinds=KINDS)
+            units += ex.dev_units(cfg, entropy, N, D, nchunks=8 if N == 8 else 24, kinds=KINDS)
     # ladder through sdeint
     ladder_N = [10, 100, 101, 1000, 25000] if tier == 'quick' else [10, 100, 101, 1000, 25000, 60000]
     for kind, N, dtype in itertools.product(['default', 'hinted', 'path', 'tree', 'interval_c0', 'interval_tol'],
                                             ladder_N, ['float32', 'float64']):
         if kind in ('tree', 'interval_tol') and N > 25000:
             continue
+        if kind == 'interval_c0' and N > (1000 if tier == 'quick' else 25000):
+            continue  # without a cache every query recomputes from the root: 25000 steps take ~200 s
         units.append(dict(kind='sdeint', bm=kind, N=N, dtype=dtype, T=1.0))
     # the actual residual last step floating-point accumulation produces
     for T, k in itertools.product([1.0, 10.0], [1, 2, 3, 5, 7]):
@@ -168,7 +171,7 @@ def run(tier, seed):
             for kind in ('default', 'tree', 'hinted', 'interval_tol'):
                 for dtype in ('float32', 'float64'):
                     units.append(dict(kind='sdeint', bm=kind, N=int(round(T / dt)), dtype=dtype, T=T, dt=dt))
-    units.sort(key=lambda u: -(u.get('N', 0) if u['kind'] == 'sdeint' else 0))
+    units.sort(key=lambda u: -(u.get('N', 0) if u['kind'] == 'sdeint' else 100 * u.get('N', 0) * (len(u.get('devsets', [])) > 1)))
     chk.count('work_units', len(units))
     for part in pmap(run_unit, units):
         chk.merge(part)
